@@ -14,9 +14,11 @@
 (*     when execute() hit an entry that has a Jacobian (_has_jacobian and jac); *)
 (*   - the chain linearizes its disciplines in reverse order with execute=False*)
 (*     at the inputs they hold (chain.py:226-260).                             *)
-(* The bodies of the harness disciplines raise on demand (F = set of           *)
-(* <<process, "run"|"jac">> that raise when reached) and advance a logical      *)
-(* clock by 1 (_run) or 2 (_compute_jacobian) ticks, so durations are integers.*)
+(* The bodies of the harness disciplines raise on demand (f = <<process,       *)
+(* "run"|"jac">> raises when reached) and advance a logical clock by 1 (_run)  *)
+(* or 2 (_compute_jacobian) ticks, so durations are integers.                  *)
+(* As in ExecStatus, the outputs of a call label the transition and `Dump`     *)
+(* prints the labelled graph.                                                  *)
 EXTENDS ExecStatusDefs
 
 CONSTANTS
@@ -26,13 +28,15 @@ CONSTANTS
     SetVals,     \* statuses the driver sets by hand (DisciplineAdapter sets DONE before each evaluation)
     SetProcs,    \* processes whose status the driver sets by hand
     CallProcs,   \* processes the driver executes / linearizes
-    WithToggle, WithReset, WithLin,   \* families of actions enabled
+    WithToggle, WithReset, WithLin, WithFailures,   \* families of actions enabled
+    EnInit,      \* initial value of ExecutionStatistics.is_enabled
     MaxCnt
 
 Leaves == {"d1", "d2"}
 All == Leaves \cup {"c"}
 NoX == -1
 NoEntry == [x |-> NoX, out |-> FALSE, jac |-> FALSE]
+NoFail == <<"none", "-">>
 
 VARIABLES
     st, att, en, nx, nl, du,   \* as in ExecStatus, per process
@@ -40,32 +44,36 @@ VARIABLES
     io,      \* [Leaves -> X \cup {NoX}]: the input the discipline currently holds in io.data
     hj,      \* [Leaves -> BOOLEAN]: Discipline._has_jacobian
     jne,     \* [Leaves -> BOOLEAN]: Discipline.jac is not empty
-    emit, res, seen
-vars == <<st, att, en, nx, nl, du, ent, io, hj, jne, emit, res, seen>>
+    seen
+vars == <<st, att, en, nx, nl, du, ent, io, hj, jne, seen>>
 
 \* the chain's own _has_jacobian / jac / io matter inside a call only (linearize(execute=True) rewrites them
 \* before reading them): they are fields of the world, not of the state
-World == [st |-> st, att |-> att, en |-> en, nx |-> nx, nl |-> nl, du |-> du, emit |-> <<>>, t |-> 0,
+World == TLCEval(
+         [st |-> st, att |-> att, en |-> en, nx |-> nx, nl |-> nl, du |-> du, emit |-> <<>>, t |-> 0,
           ent |-> ent,
           io  |-> [p \in All |-> IF p \in Leaves THEN io[p] ELSE NoX],
           hj  |-> [p \in All |-> IF p \in Leaves THEN hj[p] ELSE FALSE],
-          jne |-> [p \in All |-> IF p \in Leaves THEN jne[p] ELSE FALSE]]
-SeenOf(e, x, l, d) == [p \in All |-> IF e THEN <<x[p], l[p], d[p]>> ELSE <<None, None, None>>]
+          jne |-> [p \in All |-> IF p \in Leaves THEN jne[p] ELSE FALSE]])
+SeenOf(e, x, l, d) == TLCEval([p \in All |-> IF e THEN <<x[p], l[p], d[p]>> ELSE <<None, None, None>>])
+StateOf(w) == [st |-> w.st, att |-> w.att, en |-> w.en, nx |-> w.nx, nl |-> w.nl, du |-> w.du,
+               ent |-> w.ent, io |-> [p \in Leaves |-> w.io[p]], hj |-> [p \in Leaves |-> w.hj[p]],
+               jne |-> [p \in Leaves |-> w.jne[p]], seen |-> SeenOf(w.en, w.nx, w.nl, w.du)]
+Edge(call, r) == <<call, r.err, r.w.emit, StateOf(r.w)>>
 
 Commit(r) ==
-    /\ st' = r.w.st /\ att' = r.w.att /\ nx' = r.w.nx /\ nl' = r.w.nl /\ du' = r.w.du
+    /\ st' = r.w.st /\ att' = r.w.att /\ nx' = r.w.nx /\ nl' = r.w.nl /\ du' = r.w.du /\ en' = r.w.en
     /\ ent' = r.w.ent
     /\ io' = [p \in Leaves |-> r.w.io[p]] /\ hj' = [p \in Leaves |-> r.w.hj[p]]
     /\ jne' = [p \in Leaves |-> r.w.jne[p]]
-    /\ emit' = r.w.emit /\ res' = r.err /\ en' = en
     /\ seen' = SeenOf(en', nx', nl', du')
 
 Init ==
-    /\ st = [p \in All |-> "DONE"] /\ att = [p \in All |-> Obs] /\ en = TRUE
+    /\ st = [p \in All |-> "DONE"] /\ att = [p \in All |-> Obs] /\ en = EnInit
     /\ nx = [p \in All |-> 0] /\ nl = [p \in All |-> 0] /\ du = [p \in All |-> 0]
     /\ ent = [p \in All |-> NoEntry]
     /\ io = [p \in Leaves |-> NoX] /\ hj = [p \in Leaves |-> FALSE] /\ jne = [p \in Leaves |-> FALSE]
-    /\ emit = <<>> /\ res = OkRes /\ seen = SeenOf(TRUE, nx, nl, du)
+    /\ seen = SeenOf(EnInit, nx, nl, du)
 
 -----------------------------------------------------------------------------
 \* SimpleCache (simple_cache.py): one entry; data are stored under their own input
@@ -82,14 +90,14 @@ ExecWith(w, p, x, Body(_)) ==
        ELSE LET r == Handle([w0 EXCEPT !.io[p] = x], p, "RUNNING", "exec", Body)
             IN IF r.ok /\ UseCache THEN Ok([r.w EXCEPT !.ent[p] = StoreOut(@, x)]) ELSE r
 
-RunBody(w, p, F) == IF <<p, "run">> \in F THEN R(FALSE, Boom(p, "run"), Tick(w, 1)) ELSE Ok(Tick(w, 1))
-JacBody(w, p, F) == IF <<p, "jac">> \in F THEN R(FALSE, Boom(p, "jac"), Tick(w, 2)) ELSE Ok(Tick(w, 2))
+RunBody(w, p, f) == IF f = <<p, "run">> THEN R(FALSE, Boom(p, "run"), Tick(w, 1)) ELSE Ok(Tick(w, 1))
+JacBody(w, p, f) == IF f = <<p, "jac">> THEN R(FALSE, Boom(p, "jac"), Tick(w, 2)) ELSE Ok(Tick(w, 2))
 
-LeafExec(w, p, x, F) == ExecWith(w, p, x, LAMBDA v : RunBody(v, p, F))
+LeafExec(w, p, x, f) == ExecWith(w, p, x, LAMBDA v : RunBody(v, p, f))
 \* MDOChain._execute: the disciplines in order, the first exception stops the chain (y = x, z = y)
-ChainBody(w, x, F) ==
-    LET r1 == LeafExec(w, "d1", x, F) IN IF ~r1.ok THEN r1 ELSE LeafExec(r1.w, "d2", x, F)
-ChainExec(w, x, F) == ExecWith(w, "c", x, LAMBDA v : ChainBody(v, x, F))
+ChainBody(w, x, f) ==
+    LET r1 == LeafExec(w, "d1", x, f) IN IF ~r1.ok THEN r1 ELSE LeafExec(r1.w, "d2", x, f)
+ChainExec(w, x, f) == ExecWith(w, "c", x, LAMBDA v : ChainBody(v, x, f))
 
 \* Discipline.linearize(x, execute=doExec) of process p
 LinWith(w, p, x, doExec, ExecOp(_), Jac(_)) ==
@@ -101,100 +109,132 @@ LinWith(w, p, x, doExec, ExecOp(_), Jac(_)) ==
             IN IF ~r.ok THEN r
                ELSE Ok([r.w EXCEPT !.jne[p] = TRUE, !.ent[p] = IF UseCache THEN StoreJac(@, x) ELSE @])
 
-LeafLin(w, p, x, doExec, F) ==
-    LinWith(w, p, x, doExec, LAMBDA v : LeafExec(v, p, x, F), LAMBDA v : JacBody(v, p, F))
+LeafLin(w, p, x, doExec, f) ==
+    LinWith(w, p, x, doExec, LAMBDA v : LeafExec(v, p, x, f), LAMBDA v : JacBody(v, p, f))
 \* MDOChain._compute_jacobian: last discipline first, each at the input it holds, without re-execution
-ChainJac(w, F) ==
-    LET r2 == LeafLin(w, "d2", w.io["d2"], FALSE, F)
-    IN IF ~r2.ok THEN r2 ELSE LeafLin(r2.w, "d1", r2.w.io["d1"], FALSE, F)
-ChainLin(w, x, F) ==
-    LinWith(w, "c", x, TRUE, LAMBDA v : ChainExec(v, x, F), LAMBDA v : ChainJac(v, F))
+ChainJac(w, f) ==
+    LET r2 == LeafLin(w, "d2", w.io["d2"], FALSE, f)
+    IN IF ~r2.ok THEN r2 ELSE LeafLin(r2.w, "d1", r2.w.io["d1"], FALSE, f)
+ChainLin(w, x, f) ==
+    LinWith(w, "c", x, TRUE, LAMBDA v : ChainExec(v, x, f), LAMBDA v : ChainJac(v, f))
 
 -----------------------------------------------------------------------------
 \* what can be asked to fail in a call on p
-FailSets(p, lin) ==
+Fails(p, lin) ==
     LET ps == IF p = "c" THEN Leaves ELSE {p}
-    IN {{}} \cup {{<<q, "run">>} : q \in ps} \cup (IF lin THEN {{<<q, "jac">>} : q \in ps} ELSE {})
+    IN {NoFail} \cup (IF WithFailures
+                      THEN {<<q, "run">> : q \in ps} \cup (IF lin THEN {<<q, "jac">> : q \in ps} ELSE {})
+                      ELSE {})
 
-Execute(p, x, F) ==
-    /\ p \in CallProcs
-    /\ Commit(IF p = "c" THEN ChainExec(World, x, F) ELSE LeafExec(World, p, x, F))
-
-Linearize(p, x, F) ==
-    /\ p \in CallProcs /\ WithLin
-    /\ Commit(IF p = "c" THEN ChainLin(World, x, F) ELSE LeafLin(World, p, x, TRUE, F))
-
+ExecuteR(p, x, f)   == IF p = "c" THEN ChainExec(World, x, f) ELSE LeafExec(World, p, x, f)
+LinearizeR(p, x, f) == IF p = "c" THEN ChainLin(World, x, f) ELSE LeafLin(World, p, x, TRUE, f)
 \* p.execution_status.value = s
-SetStatus(p, s) == p \in SetProcs /\ Commit(SetTo(World, p, s))
-
-Toggle ==
-    /\ WithToggle
-    /\ en' = ~en /\ UNCHANGED <<st, att, nx, nl, du, ent, io, hj, jne>>
-    /\ emit' = <<>> /\ res' = OkRes /\ seen' = SeenOf(en', nx', nl', du')
-
+SetStatusR(p, s) == SetTo(World, p, s)
+ToggleR == Ok([World EXCEPT !.en = ~@])
 \* n_executions = 0; n_linearizations = 0; duration = 0  (RuntimeError of the first setter while disabled)
-ResetStats(p) ==
-    /\ WithReset
-    /\ IF ~en THEN Commit(R(FALSE, <<"Disabled", p, "nx", "-">>, World))
-       ELSE Commit(Ok([World EXCEPT !.nx[p] = 0, !.nl[p] = 0, !.du[p] = 0]))
+ResetStatsR(p) ==
+    IF ~en THEN R(FALSE, <<"Disabled", p, "nx", "-">>, World)
+    ELSE Ok([World EXCEPT !.nx[p] = 0, !.nl[p] = 0, !.du[p] = 0])
+
+Execute(p, x, f)   == p \in CallProcs /\ Commit(ExecuteR(p, x, f))
+Linearize(p, x, f) == p \in CallProcs /\ WithLin /\ Commit(LinearizeR(p, x, f))
+SetStatus(p, s)    == p \in SetProcs /\ Commit(SetStatusR(p, s))
+Toggle             == WithToggle /\ Commit(ToggleR)
+ResetStats(p)      == p \in All /\ WithReset /\ Commit(ResetStatsR(p))
 
 Next ==
-    \/ \E p \in All, x \in X : \E F \in FailSets(p, FALSE) : Execute(p, x, F)
-    \/ \E p \in All, x \in X : \E F \in FailSets(p, TRUE) : Linearize(p, x, F)
-    \/ \E p \in All, s \in SetVals : SetStatus(p, s)
+    \/ \E p \in CallProcs, x \in X : \E f \in Fails(p, FALSE) : Execute(p, x, f)
+    \/ \E p \in CallProcs, x \in X : \E f \in Fails(p, TRUE) : Linearize(p, x, f)
+    \/ \E p \in SetProcs, s \in SetVals : SetStatus(p, s)
     \/ Toggle
     \/ \E p \in All : ResetStats(p)
 
 Spec == Init /\ [][Next]_vars
-Bound == \A p \in All : nx[p] <= MaxCnt /\ nl[p] <= MaxCnt
+\* (two names: TLC's coverage mode cannot evaluate the CONSTRAINT operator inside another definition)
+InBound == \A p \in All : nx[p] <= MaxCnt /\ nl[p] <= MaxCnt
+
+\* the labelled state graph: one JSON line per reachable state (run with one worker)
+ExecEdges == {Edge(<<"Execute", c[1], c[2], c[3]>>, ExecuteR(c[1], c[2], c[3])) :
+                 c \in UNION {{<<p, x, f>> : x \in X, f \in Fails(p, FALSE)} : p \in CallProcs}}
+LinEdges  == IF WithLin
+             THEN {Edge(<<"Linearize", c[1], c[2], c[3]>>, LinearizeR(c[1], c[2], c[3])) :
+                      c \in UNION {{<<p, x, f>> : x \in X, f \in Fails(p, TRUE)} : p \in CallProcs}}
+             ELSE {}
+Edges == <<
+    ExecEdges, LinEdges,
+    {Edge(<<"SetStatus", p, s>>, SetStatusR(p, s)) : p \in SetProcs, s \in SetVals},
+    IF WithToggle THEN {Edge(<<"Toggle">>, ToggleR)} ELSE {},
+    IF WithReset THEN {Edge(<<"ResetStats", p>>, ResetStatsR(p)) : p \in All} ELSE {} >>
+AtInit == /\ \A p \in All : st[p] = "DONE" /\ att[p] = Obs /\ nx[p] = 0 /\ nl[p] = 0 /\ du[p] = 0 /\ ent[p] = NoEntry
+          /\ \A p \in Leaves : io[p] = NoX /\ ~hj[p] /\ ~jne[p]
+          /\ en = EnInit
+Bound == InBound
+Dump == InBound => PrintT(ToJson(<<"G", AtInit, StateOf(World), Edges>>))   \* states outside the bound are not nodes
 
 -----------------------------------------------------------------------------
+\* The properties are stated on every call possible in a state (its result r against the state it starts from)
+ExecResults == {ExecuteR(c[1], c[2], c[3]) :
+                   c \in UNION {{<<p, x, f>> : x \in X, f \in Fails(p, FALSE)} : p \in CallProcs}}
+LinResults  == IF WithLin
+               THEN {LinearizeR(c[1], c[2], c[3]) :
+                        c \in UNION {{<<p, x, f>> : x \in X, f \in Fails(p, TRUE)} : p \in CallProcs}}
+               ELSE {}
+SetResults  == {SetStatusR(p, s) : p \in SetProcs, s \in SetVals}
+CallResults == ExecResults \cup LinResults
+Results     == CallResults \cup SetResults \cup {ToggleR} \cup {ResetStatsR(p) : p \in All}
+Notified(r, p, s) == \E i \in 1..Len(r.w.emit) : r.w.emit[i][1] = p /\ r.w.emit[i][2] = s
+
 TypeOK ==
     /\ st \in [All -> Statuses] /\ att \in [All -> SUBSET Obs] /\ en \in BOOLEAN
     /\ nx \in [All -> Nat] /\ nl \in [All -> Nat] /\ du \in [All -> Nat]
     /\ \A p \in All : ent[p].x \in X \cup {NoX} /\ (ent[p].x = NoX <=> (~ent[p].out /\ ~ent[p].jac))
     /\ io \in [Leaves -> X \cup {NoX}] /\ hj \in [Leaves -> BOOLEAN] /\ jne \in [Leaves -> BOOLEAN]
-    /\ Len(res) = 4
 
 SeenOK == seen = SeenOf(en, nx, nl, du)
 
 \* between calls nobody is RUNNING or LINEARIZING unless the driver set it by hand
 Quiescent == (SetVals \cap Guarded = {}) => \A p \in All : st[p] \in {"DONE", "FAILED"}
 
-\* what each call emitted for each process is a chain of accepted settings from its old to its new status
-EmitChain == [][\A p \in All : ChainOK(st[p], EmitOf(emit', p), st'[p])]_vars
+\* what each call emits for each process is a chain of accepted settings from its old to its new status
+EmitChain == \A r \in Results : \A p \in All : ChainOK(st[p], EmitOf(r.w.emit, p), r.w.st[p])
 
 \* the chain's status brackets those of its disciplines: while a discipline is notified, the last status
 \* notified for the chain (if the chain is active in the call at all) is RUNNING or LINEARIZING
 Bracketed ==
-    \A i \in 1..Len(emit) :
-        (emit[i][1] \in Leaves /\ \E j \in 1..(i - 1) : emit[j][1] = "c") =>
-            LET J == {j \in 1..(i - 1) : emit[j][1] = "c"}
+    \A r \in CallResults : \A i \in 1..Len(r.w.emit) :
+        (r.w.emit[i][1] \in Leaves /\ \E j \in 1..(i - 1) : r.w.emit[j][1] = "c") =>
+            LET J == {j \in 1..(i - 1) : r.w.emit[j][1] = "c"}
                 last == CHOOSE j \in J : \A k \in J : k <= j
-            IN emit[last][2] \in Guarded
+            IN r.w.emit[last][2] \in Guarded
 
-DisabledRecordsNothing == [][~en => UNCHANGED <<nx, nl, du>>]_vars
+DisabledRecordsNothing == ~en => \A r \in Results : (r.w.nx = nx /\ r.w.nl = nl /\ r.w.du = du)
 
-\* per process: a counter moves by at most one per call and only if the process was notified DONE in the call
+\* per process: a counter moves by at most one per call and only if the process is notified DONE in the call
 \* (a cache hit, a refusal, a failure count nothing); durations only grow with the counters
 CountersStep ==
-    [][\A p \in All :
-          \/ (nx'[p] = 0 /\ nl'[p] = 0 /\ du'[p] = 0)                      \* ResetStats
-          \/ /\ nx'[p] - nx[p] \in {0, 1} /\ nl'[p] - nl[p] \in {0, 1} /\ du'[p] >= du[p]
-             /\ (nx'[p] + nl'[p] > nx[p] + nl[p]) =>
-                    \E i \in 1..Len(emit') : emit'[i][1] = p /\ emit'[i][2] = "DONE"
-             /\ (du'[p] > du[p]) => (nx'[p] + nl'[p] > nx[p] + nl[p])]_vars
+    \A r \in CallResults \cup SetResults : \A p \in All :
+        /\ r.w.nx[p] - nx[p] \in {0, 1} /\ r.w.nl[p] - nl[p] \in {0, 1} /\ r.w.du[p] >= du[p]
+        /\ (r.w.nx[p] + r.w.nl[p] > nx[p] + nl[p]) => Notified(r, p, "DONE")
+        /\ (r.w.du[p] > du[p]) => (r.w.nx[p] + r.w.nl[p] > nx[p] + nl[p])
+\* while enabled, the executions / linearizations counted for p are exactly its RUNNING->DONE / LINEARIZING->DONE
+\* brackets in the call
+CountsBrackets ==
+    en => \A r \in CallResults : \A p \in All :
+            LET e == EmitOf(r.w.emit, p)
+                B(s) == Cardinality({i \in 1..(Len(e) - 1) : e[i][2] = s /\ e[i + 1][2] = "DONE"})
+            IN r.w.nx[p] = nx[p] + B("RUNNING") /\ r.w.nl[p] = nl[p] + B("LINEARIZING")
 
-\* a failure of a discipline inside the chain fails the chain too, and the disciplines after it are untouched
+\* a failure of a discipline inside the chain fails the chain too
 FailurePropagates ==
-    [][(res'[1] = "Boom" /\ \E i \in 1..Len(emit') : emit'[i][1] = "c") =>
-          (st'["c"] = "FAILED" /\ st'[res'[2]] = "FAILED")]_vars
+    \A r \in CallResults : (r.err[1] = "Boom" /\ \E i \in 1..Len(r.w.emit) : r.w.emit[i][1] = "c") =>
+        (r.w.st["c"] = "FAILED" /\ r.w.st[r.err[2]] = "FAILED")
 
 \* FAILED is left only by an explicit setting of the status: a discipline that failed inside a chain makes
 \* every later execution of the chain fail until ITS status (not only the chain's) is set back to DONE
-FailedIsSticky == [][\A p \in All : (st[p] = "FAILED" /\ st'[p] # "FAILED") => Len(emit') = 1]_vars
-\* negative run (must be refuted): "resetting the chain is enough to run it again"
+FailedIsSticky ==
+    \A r \in Results : \A p \in All : (st[p] = "FAILED" /\ r.w.st[p] # "FAILED") => r \in SetResults
+\* negative run (must be refuted by TLC): "resetting the chain's status is enough to run the chain again"
 ChainResetSuffices ==
-    [][(st["c"] = "DONE" /\ emit' # <<>> /\ emit'[1] [1] = "c" /\ emit'[1][2] = "RUNNING" /\ res'[1] # "Boom")
-          => st'["c"] = "DONE"]_vars
+    \A r \in ExecResults :
+        (st["c"] = "DONE" /\ Notified(r, "c", "RUNNING") /\ r.err[1] # "Boom") => r.w.st["c"] = "DONE"
 =============================================================================
